@@ -132,7 +132,9 @@ func (s *pairSys) Step(op int) bfs.StepResult {
 				add("error-family", "Windows-typed instance returned a value of family "+wr.Fam)
 			}
 
-			if !classCompatible(c.Op, lr.Kind, wr.Kind, lr.Fam, wr.Fam) {
+			// the property requires agreement on success or failure only: a
+			// mismatch of error classes is informational (VERIF_C17_ERRCLASS=1 lists it)
+			if errClassReport && !classCompatible(c.Op, lr.Kind, wr.Kind, lr.Fam, wr.Fam) {
 				add("error-class", "failure kinds are not counterparts in Errors.SetOSType / the call's OS branch")
 			}
 		} else if lv, wv, cmp := s.values(c, lr, wr); cmp && lv != wv {
